@@ -147,11 +147,12 @@ def run(ctx):
     # ---- 2. build, drive the real code
     bin_gocql = vf.build_gotest(ctx, ".", ["common", "c18"])
     bin_lz4 = vf.build_gotest(ctx, "lz4", ["c18lz4"])
-    paths = {k: os.path.join(ctx.tmp, "vec_%s.ndjson" % k) for k in ("snappy", "lz4", "frames", "wire", "resp", "push")}
+    paths = {k: os.path.join(ctx.tmp, "vec_%s.ndjson" % k) for k in ("snappy", "lz4", "frames", "blobs", "wire", "resp", "push")}
     jobs = [
         ("snappy", bin_gocql, "TestVfC18Codec", {"VF_C18_OUT": paths["snappy"], "VF_C18_STREAMS": sp}),
         ("lz4", bin_lz4, "TestVfC18Codec", {"VF_C18_OUT": paths["lz4"], "VF_C18_STREAMS": sp}),
         ("frames", bin_gocql, "TestVfC18Frames", {"VF_C18_FRAMES": paths["frames"]}),
+        ("blobs", bin_gocql, "TestVfC18Blobs", {"VF_C18_BLOBS": paths["blobs"]}),
         ("wire", bin_gocql, "TestVfC18Conns", {"VF_C18_WIRE": paths["wire"]}),
         ("resp", bin_gocql, "TestVfC18Resp", {"VF_C18_RESP": paths["resp"]}),
         ("push", bin_gocql, "TestVfC18Push", {"VF_C18_PUSH": paths["push"]}),
@@ -178,7 +179,7 @@ def run(ctx):
     notes_nonstrict = []
     states, trans, undecided, judged, unjudged = gstates, gtrans, 0, 0, 0
     chosen = []
-    for k in ("snappy", "lz4", "frames", "wire", "resp", "push"):
+    for k in ("snappy", "lz4", "frames", "blobs", "wire", "resp", "push"):
         sel, skipped = _select(ctx, vec[k]) if k in ("snappy", "lz4") else (vec[k], 0)
         unjudged += skipped
         chosen += sel
@@ -200,7 +201,7 @@ def run(ctx):
             if v["k"] in ("enc", "dec"):
                 key, what = _codec_key(v["alg"], kind, v), _codec_what(v["alg"], kind, v)
             elif v["k"] == "frame":
-                key = "frame-%s-%s-compressor=%s" % (kind, v["name"], v["alg"] or "none")
+                key = "frame-%s-%s-compressor=%s" % (kind, re.sub(r"blob\d+", "incompressible-blob", v["name"]), v["alg"] or "none")
                 what = "request %s built by the framer (protocol %d, compressor %s, tracing %s): flags %#x, body on the wire %s, logical body %s%s" % (
                     v["name"], v["proto"], v["alg"] or "none", v["tracing"], v["flags"], _short(v["wire"]), _short(v["logical"]),
                     (" PANIC " + v["panic"]) if v["panic"] else "")
@@ -265,6 +266,7 @@ def run(ctx):
         generated_base_streams=nbase, generated_streams=len(streams),
         encoder_bodies={a: summ[a]["enc"] for a in ("snappy", "lz4")}, decoder_inputs={a: summ[a]["dec"] for a in ("snappy", "lz4")},
         request_kinds_framer=len({v["name"] for v in vec["frames"]}), framer_vectors=len(vec["frames"]),
+        incompressible_blob_frames=len(vec["blobs"]), incompressible_blob_sizes=len({v["blob"] for v in vec["blobs"]}),
         negotiation_table=dict(exhaustive=True, sessions=summ["wire"]["sessions"], frames=len(vec["wire"]), opcodes_on_wire=ops,
                                authentication=["none", "PasswordAuthenticator", "multi-round x 0,1,2 challenges"],
                                auth_responses_on_wire=summ["wire"]["auth_responses"],
@@ -277,6 +279,7 @@ def run(ctx):
                               compressed_frames=sum(1 for v in vec["push"] if v["k"] == "srv" and v["flag"]),
                               compressed_pushed_events=sum(1 for v in vec["push"] if v["k"] == "srv" and v["flag"] and v["stream"] < 0),
                               opcodes=sorted({v["op"] for v in vec["push"] if v["k"] == "srv"}),
+                              response_flag_bytes=sorted({v["fflags"] for v in vec["push"] if v["k"] == "srv"}),
                               big_rows_results_compressed_below_rows_x_cols_x_4=sum(
                                   1 for v in vec["push"] if v["k"] == "srv" and v["flag"] and v["stage"].startswith("rows-250")
                                   and len(v["body"]) < 250 * 2 * 4)),
